@@ -141,17 +141,56 @@ theorem close_cancels_queued (s : H) :
   simp only [List.mem_append, List.mem_map]
   exact Or.inr ⟨d, hd, rfl⟩
 
-/-- FULL STATEMENT of the status clause of send_cb_once — NOT proved in Lean (only the exactly-once /
-partition part above is).  On the implementation it is evaluated by the monitors `send-cb-status`,
-`reported-sent-not-on-wire`, `reported-failed-but-sent` of checks/c10.py and by the line-by-line
-correspondence.  Missing in Lean: an invariant relating the statuses stored in the completed queue to the
-system-call log (`klog`) through `sendmsgAgain`. -/
-def send_cb_status_statement : Prop :=
-  ∀ (sc : Script) (conn mm : Bool) (steps : List Step),
+theorem reach_inv2 (sc : Script) (conn mm : Bool) (steps : List Step) : Inv2 (reach sc conn mm steps) := by
+  unfold reach
+  suffices ∀ s, Inv2 s → Inv2 (steps.foldl (step sc) s) from this _ (inv2_init conn mm)
+  induction steps with
+  | nil => intro s h; exact h
+  | cons st steps ih =>
+    intro s h
+    apply ih
+    cases st with
+    | op o => exact ⟨applyOp_inv s o h.1, applyOp_st s o h.1 h.2⟩
+    | env outs sizes => exact h.of_eq rfl rfl rfl rfl rfl rfl rfl rfl rfl rfl rfl
+    | run q => exact uvRun_inv2 sc s q h
+    | ioOut => exact ioOut_inv2 sc s h
+    | ioIn q => exact ioIn_inv2 sc s q h
+    | finishClose => exact finishClose_inv2 sc s h
+
+/-- the status clause of send_cb_once, in every reachable state, for every send callback made so far
+(`cbs` = (request id, status) pairs; `wire` = datagrams the kernel took; `klog` = every sendmsg/sendmmsg call
+with the vector offered and its result; `cancelled` = ids of the requests that uv__udp_finish_close found still
+in the write queue):
+* status 0 exactly when the request's datagram was handed to the OS;
+* otherwise the status is UV_ECANCELED for a request that was still queued at close, and for any other
+  request it is the (EAGAIN/ENOBUFS-mapped) errno of a failed system call whose first datagram was that request;
+* a request that was still queued at close always gets UV_ECANCELED. -/
+theorem send_cb_status (sc : Script) (conn mm : Bool) (steps : List Step) :
     ∀ c ∈ (reach sc conn mm steps).cbs,
       (c.2 = 0 ↔ c.1 ∈ (reach sc conn mm steps).wire.map (·.seq))
-      ∧ (c.2 ≠ 0 → c.2 = UV_ECANCELED ∨
-          ∃ k ∈ (reach sc conn mm steps).klog, k.res < 0 ∧ k.offered.head?.map (·.seq) = some c.1 ∧ c.2 = mapErr k.res)
+      ∧ (c.2 ≠ 0 →
+          (c.1 ∈ (reach sc conn mm steps).cancelled ∧ c.2 = UV_ECANCELED) ∨
+          (c.1 ∉ (reach sc conn mm steps).cancelled ∧
+            ∃ k ∈ (reach sc conn mm steps).klog, k.res < 0 ∧ k.offered.head?.map (·.seq) = some c.1 ∧ c.2 = mapErr k.res))
+      ∧ (c.1 ∈ (reach sc conn mm steps).cancelled → c.2 = UV_ECANCELED) := by
+  have h := (reach_inv2 sc conn mm steps).2
+  intro c hc
+  refine ⟨⟨fun h0 => (h.c1 c hc h0).1, fun hw => ?_⟩, fun hn => (h.c2 c hc hn).2, fun hcan => ?_⟩
+  · by_cases h0 : c.2 = 0
+    · exact h0
+    · exact absurd hw (h.c2 c hc h0).1
+  · by_cases h0 : c.2 = 0
+    · exact absurd hcan (h.c1 c hc h0).2
+    · rcases (h.c2 c hc h0).2 with ⟨_, h2⟩ | ⟨h1, _⟩
+      · exact h2
+      · exact absurd hcan h1
+
+/-- non-vacuity: two requests queued under EAGAIN, handle closed: both get UV_ECANCELED, nothing sent;
+and (exPinned below) EPERM pinned on request 0: status -1 = the errno of the call that carried it -/
+def exCancelled : H := reach (fun _ _ => []) false false
+  [.env [.err 11] [], .op (.send [7] 1 false), .op (.send [9] 1 false), .op .close, .run []]
+example : exCancelled.cbs = [(0, -125), (1, -125)] ∧ exCancelled.cancelled = [0, 1] ∧ exCancelled.wire = [] := by
+  decide
 
 /-! ### dgram_at_most_once_in_order -/
 
@@ -254,24 +293,22 @@ then EAGAIN ends the invocation (the old code span forever here) -/
 example : (recvmsg (plainUser true 1000) () [.dg ⟨50, false, 7⟩]).evs =
     [.alloc 1000, .cb ⟨50, some ⟨0, 0, 1000⟩, 7, 0⟩, .alloc 1000, .cb ⟨0, some ⟨1, 0, 1000⟩, 0, 0⟩] := by decide
 
-def dgsOf (q : List RItem) : List RDg := q.filterMap fun | .dg d => some d | _ => none
-def deliveries (evs : List REv) : List CbArgs :=
-  evs.filterMap fun | .cb a => if a.peer ≠ 0 then some a else none | _ => none
-
-/-- FULL STATEMENT of recv_payload_exact — NOT proved in Lean.  On the implementation it is evaluated by the
-monitor `recv-payload` (every delivered callback against the scripted socket queue: length = min(kernel
-length, buffer length), sender, UV_UDP_PARTIAL iff MSG_TRUNC, payload bytes) and by the correspondence.  The
-datagrams consumed from the socket queue are delivered in order, one callback each, with the length, sender and
-truncation flag the kernel reported (unless the user stops inside a chunk callback: the rest of that batch is
-dropped). -/
-def recv_payload_exact_statement : Prop :=
-  ∀ {σ : Type} (u : RecvUser σ) (s : σ) (q : List RItem),
-    (∀ d ∈ dgsOf q, d.peer ≠ 0) →
-    (∀ s a, hasChunk a.flags = true → u.recvSet s = true → u.recvSet (u.cb s a) = true) →
+/-- each datagram the kernel handed over during one `uv__udp_recvmsg` is delivered by exactly one recv_cb, in
+kernel order, with the sender the kernel reported, UV_UDP_PARTIAL exactly when the kernel set MSG_TRUNC, and
+nread = min(kernel length, buffer length); `pre` is what the invocation consumed from the socket queue and no
+other callback carries an address.  Hypotheses: the handle is receiving on entry (libuv asserts it), alloc_cb
+does not stop it (libuv would call a NULL recv_cb), no uv_udp_recv_stop inside a UV_UDP_MMSG_CHUNK callback
+(otherwise the rest of the batch already read is dropped — accepted), kernel peers are real addresses. -/
+theorem recv_payload_exact {σ : Type} (u : RecvUser σ) (s : σ) (q : List RItem)
+    (hs : u.recvSet s = true) (hA : AllocKeeps u) (hC : NoStopInChunk u) (hq : ∀ d ∈ dgsOf q, d.peer ≠ 0) :
     ∃ pre, q = pre ++ (recvmsg u s q).q ∧
       (deliveries (recvmsg u s q).evs).length = (dgsOf pre).length ∧
-      ∀ p ∈ (deliveries (recvmsg u s q).evs).zip (dgsOf pre),
-        p.1.peer = p.2.peer ∧ (p.1.flags / FLAG_PARTIAL % 2 = 1 ↔ p.2.trunc = true)
-        ∧ ∃ b, p.1.buf = some b ∧ p.1.nread = min p.2.len b.len
+      ∀ p ∈ (deliveries (recvmsg u s q).evs).zip (dgsOf pre), Rel p.1 p.2 := by
+  obtain ⟨pre, h1, h2⟩ := recvLoop_deliv u hC hA q hq 32 0 32 s q [] hs ⟨[], rfl, trivial⟩
+  exact ⟨pre, h1, allRel_zip h2⟩
+
+/-- non-vacuity: truncated datagram into a 100-byte buffer, then one that fits, then EAGAIN -/
+example : deliveries (recvmsg (plainUser false 100) () [.dg ⟨200, true, 3⟩, .err 4, .dg ⟨7, false, 5⟩]).evs =
+    [⟨100, some ⟨0, 0, 100⟩, 3, 2⟩, ⟨7, some ⟨1, 0, 100⟩, 5, 0⟩] := by decide
 
 end UvModel.Udp.C10
